@@ -19,11 +19,15 @@
 #include "nmtools/array/array/transpose.hpp"
 #include "nmtools/array/array/flip.hpp"
 #include "nmtools/array/array/sum.hpp"
-using a2_t = hyb_t<unsigned,16,2>;
 #ifndef RES
 #define RES 1
 #endif
-#if RES == 0
+#if RES == 3   // default resolver over an operand of capacity 4: makes results larger than the operand's capacity reachable with extents <= 2
+using a2_t = hyb_t<unsigned,4,2>;
+#else
+using a2_t = hyb_t<unsigned,16,2>;
+#endif
+#if RES == 0 || RES == 3
 #define EVAL(mv) na::eval(mv)
 #elif RES == 1
 #define EVAL(mv) na::eval(mv, nm::None, nm::None, na::RowMajorResolver)
@@ -62,7 +66,7 @@ static inline auto sl2(const int* p){ return nmtools_tuple{p[0],p[1]}; }
   auto once = EVAL(OUTER(INNER(a, p + QI), p + QO)); auto t = EVAL(INNER(a, p + QI)); auto twice = EVAL(OUTER(t, p + QO)); \
   return lazy_eager(once, twice, OUT); }
 
-#if RES != 0
+#if RES == 1 || RES == 2
 KERNEL int K(k_front_transpose)(SIG){ a2_t a; if (!mk2(a,shape,data)) return -1;
   auto mv = view::transpose(a, ax2(p)); auto me = na::transpose(a, ax2(p), nm::None, nm::None, RESOLVER); return lazy_eager(mv, me, OUT); }
 KERNEL int K(k_front_flip)(SIG){ a2_t a; if (!mk2(a,shape,data)) return -1;
@@ -104,7 +108,7 @@ PU(reshape_flip_pad, PAD(a, p), RESHAPE(FLIP(in, p + 5), p + 6))
 PO(transpose, TRANSPOSE(a, p))
 PO(flip, FLIP(a, p))
 PO(invert, INVERT(a, p))
-#if RES != 0   // eval's default resolver returns dynamic_ndarray for sum, for which nmtools::data is unsupported (no raw pre-fill possible)
+#if RES == 1 || RES == 2   // eval's default resolver returns dynamic_ndarray for sum, for which nmtools::data is unsupported (no raw pre-fill possible)
 PO(sum, SUM(a, p))
 #endif
 PO(flip_transpose, FLIP(TRANSPOSE(a, p), p + 2))
